@@ -309,6 +309,45 @@ def _worklist_closure(ctx, R, rid):
                       "three or more levels below the top instance are missed" % W)
     R.count("work-list loops in get_all_hrefs_of_instances", n)
     R.floor("work-list loops in get_all_hrefs_of_instances", 2)
+    # the upward walk: every instance of a parent definition ends up in the ancestor set — the only thing that may suppress
+    # `S.add(p)` is p already being in S (every way of skipping the add implies `p in S`)
+    from ..pairing import alts_of
+    k = 0
+    for lp in walk_local(ga.node):
+        if not (isinstance(lp, ast.For) and isinstance(lp.iter, ast.Attribute) and lp.iter.attr == "references" and isinstance(lp.target, ast.Name)):
+            continue
+        pvar = lp.target.id
+        adds = [c for s_ in lp.body for c in ast.walk(s_) if isinstance(c, ast.Call) and isinstance(c.func, ast.Attribute) and c.func.attr == "add"
+                and c.args and norm(c.args[0]) == pvar]
+        if not adds:
+            k += 1
+            R.bad(rid, "%s|ancestors not recorded" % ga.key, ga.loc(lp), "the upward walk over `%s` records no ancestor" % norm(lp.iter))
+            continue
+        for a in adds:
+            k += 1
+            S = norm(a.func.value)
+            escapes = []
+            prev = a
+            for p_ in parent_chain(a):
+                if p_ is lp:
+                    break
+                if isinstance(p_, ast.If):
+                    in_body = any(prev is s_ or any(prev is z for z in ast.walk(s_)) for s_ in p_.body)
+                    for alt in alts_of(p_.test, not in_body):
+                        if ("in(%s,%s)" % (pvar, S)) not in alt:
+                            escapes.append(short(p_.test, 60))
+                if isinstance(p_, (ast.For, ast.While)):
+                    escapes.append("nested loop")
+                prev = p_
+            if escapes:
+                R.bad(rid, "%s|ancestor skipped" % ga.key, ga.loc(a),
+                      "the upward walk can skip `%s.add(%s)` for a reason other than `%s` already being in `%s` (guard `%s`): an ancestor instance is "
+                      "left out of the bound set, the downward search does not descend through it and the occurrences below it are missed"
+                      % (S, pvar, pvar, S, escapes[0]))
+            else:
+                R.ok(rid, "every instance of a parent definition enters `%s`" % S, ga.loc(a))
+    R.count("ancestor insertions in the upward walk", k)
+    R.floor("ancestor insertions in the upward walk", 1)
 
 
 def _closure_generators(mod):
